@@ -237,4 +237,12 @@ example :
     ((processAll s {} cs).1.ops.map (fun o => (o.boxLive, o.resInit, o.frees))) = [(true, true, 0)] := by
   decide
 
+/-- `C01_batch_keeps_held_memory` for `drainCq`, the function the `life` driver runs. -/
+theorem C01_drain_keeps_held_memory (s : Sys) (a : Acc) (i : Nat) (o : Op)
+    (ho : s.ops[i]? = some o) (hh : held o.status = true) :
+    ∃ o', (s.drainCq a).1.ops[i]? = some o' ∧ held o'.status = true ∧
+      o'.boxLive = o.boxLive ∧ o'.resInit = o.resInit ∧ o'.frees = o.frees ∧
+      o'.resDrops = o.resDrops ∧ o'.futLive = o.futLive := by
+  rw [drainCq_ops]; exact C01_batch_keeps_held_memory s.cq s a i o ho hh
+
 end A10.Life
